@@ -176,7 +176,24 @@ pub struct WherePredicate { _p: core::marker::PhantomData<()> }
 
 } // verus!
 
+verus! {
+#[verifier::external_body]
+pub struct SynType { _p: core::marker::PhantomData<()> }
+impl SynType { pub uninterp spec fn ptoks(&self) -> Seq<Tok>; }
+impl ToTokens for SynType {
+    open spec fn toks(&self) -> Seq<Tok> { self.ptoks() }
+    #[verifier::external_body]
+    fn to_tokens(&self, tokens: &mut TokenStream) { unimplemented!() }
+    #[verifier::external_body]
+    fn to_token_stream(&self) -> (r: TokenStream) { unimplemented!() }
+}
+pub struct SynField { pub ty: SynType }
+}
+
 pub mod syn {
+    pub use super::SynField as Field;
+    pub use super::SynType as Type;
+    pub use super::syn_parse::parse2;
     pub use super::Path;
     pub use super::Member;
     pub use super::Index;
